@@ -263,7 +263,7 @@ def case_gop(ctx, cls, n, masks, as_nx):
         for vname, kw in VARIANTS:
             for plant in (False, True):
                 G, E = S.simple_graph(n, mask, as_nx)
-                desc = "GraphOrderingPrinciple(G(%d,%r),%s,plant=%s)[%s%s]" % (n, E, vname, plant, cls, ",nx" if as_nx else "")
+                desc = "GraphOrderingPrinciple(G(%d,%r),%s,plant=%s)[%s%s]" % (n, E, vname, plant, cls, S.rep_tag(as_nx))
                 F = make(ctx, "gop", cls, desc, g.GraphOrderingPrinciple, G, plant=plant, **kw)
                 if F is None:
                     continue
@@ -282,12 +282,13 @@ def peb_axioms(n, E):
     return out
 
 
-def case_peb(ctx, cls, n, masks):
+def case_peb(ctx, cls, n, masks, as_nx=False):
     tt.selfcheck()
     g = gens()
     for mask in masks:
-        D, E = S.dag(n, mask)
-        desc = "PebblingFormula(DAG(%d,%r))[%s]" % (n, E, cls)
+        D, E = S.dag(n, mask, as_nx)
+        S.count_rep(ctx, as_nx)
+        desc = "PebblingFormula(DAG(%d,%r))[%s%s]" % (n, E, cls, S.rep_tag(as_nx))
         F = make(ctx, "peb", cls, desc, g.PebblingFormula, D)
         if F is None:
             continue
@@ -322,14 +323,15 @@ def stone_axioms(n, E, stones_of, nstones):
     return out
 
 
-def case_stone(ctx, cls, n, masks, smax):
+def case_stone(ctx, cls, n, masks, smax, as_nx=False):
     tt.selfcheck()
     g = gens()
     cap = S.CAP[ctx.tier]
     for mask in masks:
-        D, E = S.dag(n, mask)
+        D, E = S.dag(n, mask, as_nx)
+        S.count_rep(ctx, as_nx)
         for s in range(0, smax + 1):
-            desc = "StoneFormula(DAG(%d,%r),%d)[%s]" % (n, E, s, cls)
+            desc = "StoneFormula(DAG(%d,%r),%d)[%s%s]" % (n, E, s, cls, S.rep_tag(as_nx))
             F = make(ctx, "stone", cls, desc, g.StoneFormula, D, s)
             if F is None:
                 continue
@@ -355,9 +357,11 @@ def case_sparsestone(ctx, cls, n, masks, R, bmasks):
     cap = S.CAP[ctx.tier]
     for mask in masks:
         for bm in bmasks:
-            D, E = S.dag(n, mask)
-            B, BE = S.bipartite_graph(n, R, bm)
-            desc = "SparseStoneFormula(DAG(%d,%r),B(%d,%d,%r))[%s]" % (n, E, n, R, BE, cls)
+            rep = "duck" if (mask + bm) % 3 == 0 else False
+            D, E = S.dag(n, mask, rep)
+            B, BE = S.bipartite_graph(n, R, bm, rep)
+            S.count_rep(ctx, rep)
+            desc = "SparseStoneFormula(DAG(%d,%r),B(%d,%d,%r))[%s%s]" % (n, E, n, R, BE, cls, S.rep_tag(rep))
             F = make(ctx, "sparsestone", cls, desc, g.SparseStoneFormula, D, B)
             if F is None:
                 continue
@@ -740,14 +744,21 @@ def workload(tier, seed):
                 yield "gop", {"cls": cls, "n": n, "masks": ch, "as_nx": False}
             if n <= 3:
                 yield "gop", {"cls": cls, "n": n, "masks": masks, "as_nx": True}
+            if n <= 4:
+                for ch in chunks(masks, 8):
+                    yield "gop", {"cls": cls, "n": n, "masks": ch, "as_nx": "duck"}
         for n in range(0, 6 if quick else 7):
             masks = list(range(1 << (n * (n - 1) // 2)))
             for ch in chunks(masks, 64 if n < 6 else 1024):
                 yield "peb", {"cls": cls, "n": n, "masks": ch}
+                if n <= 4:
+                    yield "peb", {"cls": cls, "n": n, "masks": ch, "as_nx": "duck"}
         for n in range(0, 5):
             masks = list(range(1 << (n * (n - 1) // 2)))
             for ch in chunks(masks, 8):
                 yield "stone", {"cls": cls, "n": n, "masks": ch, "smax": 3 if quick else 4}
+                if n == 3 or (n == 4 and not quick):
+                    yield "stone", {"cls": cls, "n": n, "masks": ch, "smax": 2, "as_nx": "duck"}
         import random
         r = random.Random("c03-%d" % seed)
         for n in range(1, 5):
